@@ -433,8 +433,10 @@ func mkP(op opcode, s ssort, p0, p1 int, name string, args ...*term) *term {
 			}
 		}
 	}
-	if r := intFloatSimplify(op, s, p0, args); r != nil {
-		return r
+	if !disableIntFloat {
+		if r := intFloatSimplify(op, s, p0, args); r != nil {
+			return r
+		}
 	}
 	// light simplification
 	switch op {
